@@ -203,10 +203,11 @@ impl <N: Numeric> ArrayBinary<N> for Array<N> {
 
     fn bitwise_xor(&self, other: &Self) -> Result<Self, ArrayError> {
         self.get_shape()?.is_broadcastable(&other.get_shape()?)?;
-        let elements = self.broadcast(other)?.into_iter()
+        let broadcasted = self.broadcast(other)?;
+        let elements = broadcasted.clone().into_iter()
             .map(|tuple| tuple.0.bitwise_xor(&tuple.1))
             .collect();
-        Self::new(elements, self.get_shape()?)
+        Self::new(elements, broadcasted.get_shape()?)
     }
 
     fn bitwise_not(&self) -> Result<Self, ArrayError> {
